@@ -21,6 +21,9 @@ HARNESS = {
     'console': dict(cpp=['h/h_console.cpp'], c=['adp/adp_console.c'],
                     repo=['librfn/console.c', 'librfn/fibre.c', 'librfn/list.c', 'librfn/messageq.c', 'librfn/ringbuf.c',
                           'librfn/util.c', 'librfn/posix/time_posix.c']),
+    'mqconc': dict(cpp=['h/h_mqconc.cpp'], c=['adp/adp_mqconc.c', 'isched/vrt.c'], repo=['librfn/messageq.c'],
+                   asan=False, repo_cflags=['-fsanitize=thread'], libs=['-ldl', '-rdynamic'],
+                   about='isched: library object code instrumented with -fsanitize=thread, linked against harness/isched/vrt.c (generated schedules, vector-clock race detection)'),
     'list': dict(cpp=['h/h_list.cpp'], c=['adp/adp_list.c'], repo=['librfn/list.c']),
 }
 
@@ -301,6 +304,42 @@ PROPS = {
         ],
         require={'returns-with-undrained-atomic-request': 1000, 'returns-with-only-timers-pending': 1000, 'returns-after-a-yield': 1000},
         assumptions=['interrupt-timing half (requests arriving inside fibre_scheduler_next) is the isched stage'],
+    ),
+    'C04': dict(
+        title='Message queue is safe for many concurrent senders and one receiver',
+        rule='case = scenario (depth, senders, messages per sender, claim retries, whether the first message is held, pre-cycled '
+             'indices) + a schedule, both from the choice tape. The real messageq.c object code is compiled with '
+             '-fsanitize=thread and linked against harness/isched/vrt.c, so every atomic operation is a scheduling point: THREADS mode '
+             '= senders and receiver are coroutines, any of which may be pre-empted before any atomic operation (a weak CAS may also '
+             'fail spuriously); ISR mode = senders are run-to-completion handlers nested (depth <= 2) inside the receiving main '
+             'context, or the receiver is a handler inside a sending main context. enum stages enumerate every schedule of the stated '
+             'scenario (optionally with a pre-emption bound); rc stages draw scenario and schedule. Oracle from call/return events '
+             'only: exclusive ownership, inside storage and slot aligned, each sent message received once and intact, claim order, '
+             'justified claim failure, conservation at quiescence, no access outside the storage. Non-trivial: two claims (or a claim '
+             'and a release) overlap in time and the queue was full at some instant. Distinct = distinct tapes.',
+        stages=[
+            dict(h='mqconc', mode='enum', what='THREADS, 2 senders x 1 msg, depth 1, 1 retry, <=4 pre-emptions', params=dict(mode=0, depth=1, senders=2, msgs=1, retries=1, preempt=4, oracle=4),
+                 common=dict(split=5, maxruns=400000)),
+            dict(h='mqconc', mode='enum', what='THREADS, 2 senders x 1 msg, depth 2, <=3 pre-emptions', params=dict(mode=0, depth=2, senders=2, msgs=1, retries=0, preempt=3, oracle=4),
+                 common=dict(split=5, maxruns=400000)),
+            dict(h='mqconc', mode='enum', what='THREADS, 3 senders x 1 msg, depth 2, <=2 pre-emptions', params=dict(mode=0, depth=2, senders=3, msgs=1, retries=0, preempt=2, oracle=4),
+                 common=dict(split=5, maxruns=400000)),
+            dict(h='mqconc', mode='enum', what='ISR, 2 nested senders interrupt the receiver, depth 1, all placements', params=dict(mode=1, roles=0, depth=1, senders=2, msgs=1, retries=0, oracle=4),
+                 common=dict(split=4, maxruns=400000)),
+            dict(h='mqconc', mode='enum', what='ISR, 3 nested senders x 2 msgs interrupt the receiver, depth 2', params=dict(mode=1, roles=0, depth=2, senders=3, msgs=2, retries=0, oracle=4),
+                 common=dict(split=4, maxruns=400000)),
+            dict(h='mqconc', mode='enum', what='ISR, receiver and a sender interrupt a sending main context, depth 2', params=dict(mode=1, roles=1, depth=2, senders=2, msgs=2, retries=0, oracle=4),
+                 common=dict(split=4, maxruns=400000)),
+            dict(h='mqconc', mode='enum', what='ISR at every-access granularity, 3 nested senders x 1 msg, depth 1', params=dict(mode=1, roles=0, depth=1, senders=3, msgs=1, retries=0, every_access=1, oracle=4),
+                 common=dict(split=4, maxruns=400000)),
+            dict(h='mqconc', mode='rc', what='random scenarios and schedules', params=dict(oracle=4),
+                 quick=dict(cases=100000, len=400), thorough=dict(cases=4000000, len=400)),
+        ],
+        require={'claims-overlap-in-time': 1000, 'queue-full-at-some-instant': 1000, 'a-claim-failed': 1000, 'two-or-more-interrupts': 1000,
+                 'preempted': 1000, 'threads-mode': 1000, 'isr-senders-interrupt-receiver': 1000, 'isr-receiver-interrupts-sender': 500},
+        assumptions=['executions are sequentially consistent interleavings at atomic-operation granularity (C07 carries them to weaker machines)',
+                     'releases follow receive order; one receiver'],
+        technique='fuzzing of schedules: compiler-instrumented object code under a harness-owned scheduler; bounded-exhaustive schedule enumeration + rapidcheck random schedules; event-history oracle',
     ),
     'C09': dict(
         title='Linked list behaves as a sequence under every order of operations',
